@@ -46,7 +46,7 @@ var (
 )
 
 // SeedPackage returns the k-th seed package (k = 0..NumSeeds-1) of the C07 flavour.
-const NumSeeds = 3
+const NumSeeds = 4
 
 func SeedPackage(r *rand.Rand, k int, pkg string) *Pkg {
 	g := NewG(r, pkg, false)
@@ -177,6 +177,45 @@ func SeedPackage(r *rand.Rand, k int, pkg string) *Pkg {
 		_ = pb
 		jt := g.mk("Tagged", "tags", []string{"@fp.Value", "@fp.Json"}, fld("plain", tInt()), fld("Title", tStr(), `json:"title_x,omitempty" bson:"t"`), fld("opt", OptionT(tInt(), true)), fld("when", TimeT()), fld("ptr", PtrT(tStr())), fld("names", SliceT(tStr())), fld("any1", AnyT()), fld("ms", NamedBasic("MyStr", "string")), fld("lbl", tStr(), `bson:"lbl"`))
 		jt.Fields[0].JoinNext = false
+	case 3: // embedded fields of every kind gombok keeps / drops, in first / middle / last position, next to
+		// private / public / underscore siblings; blank fields; several names on one line; fields whose
+		// type is an instantiation of a local generic type or an alias
+		blank := func(t *Ty) Field { return Field{Name: "_", Ty: t} }
+		g.mk("EmbPtrFirst", "embedded/ptr-struct first", vOnly, g.Emb("ptr-struct"), fld("name", tStr()), fld("Pub", tInt()), fld("_skip", tStr()))
+		g.mk("EmbIfaceMiddle", "embedded/interfaces middle", vL, fld("name", tStr()), g.Emb("iface-imported"), g.Emb("iface-local"), fld("age", tInt()))
+		g.mk("EmbNamedLast", "embedded/named-basic last", vL, fld("name", tStr()), fld("count", tInt()), g.Emb("named-basic"))
+		g.mk("EmbNamedRefs", "embedded/named slice map func", vOnly, g.Emb("named-slice"), fld("_hidden", tInt()), g.Emb("named-map"), fld("Title", tStr()), g.Emb("named-func"), fld("label", tStr()), g.Emb("named-basic", "MyStr"))
+		tagged := g.Emb("named-basic")
+		tagged.Tag = `bson:"lv"`
+		taggedP := g.Emb("ptr-struct")
+		taggedP.Tag = `column:"embp"`
+		g.mk("EmbTagged", "embedded/with struct tags", vL, taggedP, fld("name", tStr(), `column:"name"`), tagged)
+		g.mk("EmbPtrEmpty", "embedded/pointer to empty struct next to an empty struct", vL, g.Emb("struct-empty"), fld("name", tStr()), g.Emb("ptr-empty-struct"))
+		eg := g.mk("EmbGeneric", "embedded/generic instantiations", vL)
+		eg.TParams = []TParam{{Name: "T", CSrc: "any", CK: "any", Inst: tStr()}}
+		eg.Fields = []Field{g.EmbTP(eg.TParams[0]), fld("key", TParamT("T", tStr())), g.Emb("generic-nonstruct"), g.Emb("generic-struct-empty"), fld("Pub", tInt())}
+		g.mk("EmbGenericInt", "embedded/generic instantiation", vOnly, fld("name", tStr()), g.Emb("generic-struct"), fld("_x1", tInt()))
+		g.mk("EmbImported", "embedded/imported struct and imported empty struct", vL, g.Emb("imported-struct"), g.Emb("imported-struct-empty"), fld("name", tStr()))
+		g.mk("EmbAlias", "embedded/aliases", vL, fld("name", tStr()), g.Emb("alias-struct"), g.Emb("alias-nonstruct"))
+		g.mk("EmbOnly", "embedded/no other kept field", vOnly, g.Emb("ptr-struct"), fld("_only", tInt()), g.Emb("iface-local", "Greeter"))
+		g.mk("EmbEvery", "embedded/every kept kind + constructor + PubField accessors", []string{"@fp.Value", "@fp.AllArgsConstructor", "@fp.GetterPubField", "@fp.WithPubField", "@fp.String"},
+			fld("name", tStr()), g.Emb("ptr-struct"), g.Emb("iface-imported"), g.Emb("iface-local"), g.Emb("named-basic"), g.Emb("named-slice"), g.Emb("struct-empty"),
+			g.Emb("named-map"), g.Emb("generic-struct"), g.Emb("imported-struct"), g.Emb("struct"), fld("Pub", tInt()), g.Emb("alias-struct"))
+		g.mk("EmbStandalone", "embedded/stand-alone annotations", []string{"@fp.Getter", "@fp.With", "@fp.String", "@fp.AllArgsConstructor", "@fp.Builder"},
+			fld("name", tStr()), g.Emb("ptr-struct"), g.Emb("iface-imported"), g.Emb("named-basic"), fld("opt", OptionT(tInt(), true)), g.Emb("named-slice"))
+		g.mk("EmbRequired", "embedded/required-args constructor", []string{"@fp.RequiredArgsConstructor"}, fld("name", tStr()), g.Emb("ptr-struct"), g.Emb("iface-imported"), g.Emb("named-basic"), g.Emb("named-slice"))
+		g.mk("EmbJson", "embedded/with @fp.Json", vJL, g.Emb("ptr-struct"), g.Emb("named-basic"), g.Emb("named-slice"), g.Emb("generic-struct"), g.Emb("imported-struct"), fld("name", tStr()))
+		g.mk("Blanks", "blank fields first / middle / last", vL, blank(tInt()), fld("name", tStr()), blank(tStr()), fld("age", tInt()), blank(BlankStructT()))
+		mu := g.mk("MultiName", "several names on one line", vL, fld("a", tInt()), fld("b", tInt()), fld("c", tStr()), fld("d", tStr()), fld("e", tStr()), fld("F", tF64()), fld("G", tF64()), fld("h", tBool()), fld("I", tBool()), fld("_x", tInt()), fld("_y", tInt()))
+		for _, pair := range [][2]int{{0, 1}, {2, 3}, {3, 4}, {5, 6}, {7, 8}, {9, 10}} {
+			mu.Fields[pair[1]].Ty = mu.Fields[pair[0]].Ty
+			mu.Fields[pair[0]].JoinNext = true
+		}
+		gf := g.mk("GenericFields", "field types: instantiations of local generic types, aliases", vL)
+		gf.TParams = []TParam{{Name: "T", CSrc: "any", CK: "any", Inst: tInt()}}
+		tT := func() *Ty { return TParamT("T", tInt()) }
+		gf.Fields = []Field{fld("ci", CellT(tInt())), fld("ct", CellT(tT())), fld("bt", BagT(tT())), fld("al", AliasPT()), fld("lv", AliasLevelT()), fld("pc", PtrT(CellT(tStr()))), fld("vd", VoidT(tInt())), fld("oc", OptionT(CellT(tT()), true))}
+		gf.InGroup = true
 	}
 	return g.p
 }
